@@ -16,9 +16,9 @@ var accessors = map[string]struct {
 	arg   int
 	class string
 }{
-	RS + "LoadUserProfile":   {1, "read"},
-	RS + "SaveUserProfile":   {1, "write"},
-	RS + "DeleteUserProfile": {1, "write"},
+	RS + "LoadUserProfile":       {1, "read"},
+	RS + "SaveUserProfile":       {1, "write"},
+	RS + "DeleteUserProfile":     {1, "write"},
 	RS + "sendBootstrapOtpEmail": {5, "write"}, // (state, hash, otp, duration, requesting, target)
 }
 
